@@ -83,9 +83,9 @@ CLAIMS = {
   design_ref="§6 C18"),
  "C05": dict(
   category="proof",
-  text="Partial, per-function: the explicit-stack matcher steps of the flat-file HierarchyReader (readRec, stackTop, shrinkStack, growStack, recNext, recDone, Read) and of the EDI reader (SegDecl.minOccurs/maxOccurs, stackTop, shrinkStack, segNext, segDone) are proved, for all stacks and declarations, to: fail with the fatal error class exactly when an instance count is below the declared minimum at the point the matcher leaves a declaration (minErr), never return a continuable error for a structural failure (class), pop exactly one frame or keep the stack (shrinks/keeps), count an instance once (counted) and keep the node-tree invariant. HierarchyReader.Read returns a node iff no error, and io.EOF only from the branch where the record reader reports no more unprocessed data with an empty stack (eof).",
-  note="NOT decided by this check: agreement of the whole state machine with the declarative greedy-matcher semantics over all hierarchies and unit sequences (a whole-history refinement; the stack well-formedness invariant stackOK could not be carried through recNext/recDone within the solver budget and is not claimed), 'no unit consumed twice', and the EDI scanner's treatment of an unterminated trailing segment (finding F6, design round). Assumed: RecDecl/RecReader implementations meet their interface contracts.",
-  technique="contract-based deductive verification: per-step postconditions of the stack machine over go/ssa + SMT",
+  text="Partial, per step. The explicit-stack matcher steps of the flat-file HierarchyReader (readRec, stackTop, shrinkStack, growStack, recNext, recDone, Read) and of the EDI reader (SegDecl.minOccurs/maxOccurs, stackTop, shrinkStack, segNext, segDone, Read) are proved, for all stacks and declarations, to: fail with the fatal error class exactly when an instance count is below the declared minimum at the point the matcher leaves a declaration (minErr), never return a continuable error for a structural failure (class), pop exactly one frame or keep the stack (shrinks/keeps), count an instance once (counted), keep the node-tree invariant, and never pop the root. For the flat-file matcher the stack representation invariant stackOK (stack[k] is the child of stack[k-1] selected by curChild, entries below the top hold live nodes ordered by age, declaration depth grows by one per level, a pending target stems from the top entry) is proved to be preserved by recNext and recDone, which also shows recDone's two explicit panics unreachable. Read returns a node iff no error and io.EOF only when the record reader has no more data and only the root is on the stack; the fixedlength2 record reader refines the RecReader interface contract (io.EOF only with an empty line buffer: no buffered line is dropped).",
+  note="NOT decided by this check: agreement of the whole state machine with the declarative greedy-matcher semantics over all hierarchies and unit sequences (a whole-history refinement); that HierarchyReader.Read re-establishes stackOK at its call sites (assumed there); 'no unit consumed twice'; the EDI scanner's treatment of an unterminated trailing segment (finding F6, design round). Assumed: RecDecl/RecReader implementations meet their interface contracts; declarations form a tree with at most one target and min <= max (what the validators enforce).",
+  technique="contract-based deductive verification: per-step postconditions and a quantified stack invariant over go/ssa + SMT",
   design_ref="§6 C05"),
  "C06": dict(
   category="proof",
